@@ -5,7 +5,7 @@ CONSTANTS
   Ticks <- TicksB
   Supplied <- SuppliedB
   Clock0 <- C0
-  MaxLen = 5
+  MaxLen = 4
   MaxRuns = 2
   CountUxs = TRUE
 VIEW ViewNoHist
